@@ -879,6 +879,15 @@ impl<'a> ReplayEvents<'a> {
             ref_override: Some(reference),
         }
     }
+
+    /// Error unless every recorded event has been consumed (a recorded node must be
+    /// deserialized completely; leftovers mean surplus elements were skipped).
+    fn expect_exhausted(&mut self) -> Result<(), Error> {
+        match self.peek()? {
+            None => Ok(()),
+            Some(ev) => Err(Error::unexpected("end of recorded node").with_location(ev.location())),
+        }
+    }
 }
 
 impl<'a> Events<'a> for ReplayEvents<'a> {
@@ -2102,13 +2111,15 @@ impl<'de, 'e> de::Deserializer<'de> for YamlDeserializer<'de, 'e> {
                     #[cfg(any(feature = "garde", feature = "validator"))]
                     garde: None,
                 };
-                seed.deserialize(de).map_err(|e| {
+                let key = seed.deserialize(de).map_err(|e| {
                     if e.location().is_none() {
                         e.with_location(location)
                     } else {
                         e
                     }
-                })
+                })?;
+                replay.expect_exhausted()?;
+                Ok(key)
             }
 
             /// Push a batch of entries to the front of the pending queue in order.
